@@ -1017,6 +1017,7 @@ func (k *kase) run() {
 type snapshot struct {
 	links map[string]map[string]bool
 	mem   map[string]map[string]bool // owner key -> keys held by its operated value
+	phys  map[string]dbRec           // rows of the target table before the call
 }
 
 func cloneSets(m map[string]map[string]bool) map[string]map[string]bool {
@@ -1032,6 +1033,9 @@ func cloneSets(m map[string]map[string]bool) map[string]map[string]bool {
 
 func (k *kase) snapshot() *snapshot {
 	sn := &snapshot{links: cloneSets(k.m.links), mem: map[string]map[string]bool{}}
+	if k.spec.soft {
+		sn.phys = k.spec.readRecs()
+	}
 	for _, ov := range k.vals {
 		sn.mem[ov.ok] = map[string]bool{}
 		for t := range ov.mem {
@@ -1121,7 +1125,7 @@ func (k *kase) sig(st *step, ps []problem, sn *snapshot, applied bool) string {
 		alt := &model{spec: s, links: cloneSets(sn.links)}
 		for i, ov := range st.owners {
 			for _, t := range append(sortedKeys(sn.mem[ov.ok]), argKeys(st, i)...) {
-				if k.m.soft[t] {
+				if r, ok := sn.phys[t]; ok && r.soft {
 					continue // a soft-deleted row gets its key column back but stays invisible
 				}
 				alt.link(ov.ok, t, &effect{})
